@@ -130,9 +130,11 @@ def rule_r2(ctx: Ctx) -> None:
 
 
 def _range_loops(f: FunctionInfo) -> list[ast.For]:
-    return [l for l in walk_local(f.node) if isinstance(l, ast.For) and isinstance(l.iter, ast.Call) and call_name(l.iter) == "zip"
-            and l.iter.args and isinstance(l.iter.args[0], ast.Name) and isinstance(l.target, ast.Tuple)
-            and isinstance(l.target.elts[0], ast.Tuple) and len(l.target.elts[0].elts) == 2]
+    """loops 'for (start, end), step in <pairs of slices and steps>'"""
+    return [l for l in walk_local(f.node) if isinstance(l, ast.For) and isinstance(l.target, ast.Tuple) and len(l.target.elts) >= 2
+            and isinstance(l.target.elts[0], ast.Tuple) and len(l.target.elts[0].elts) == 2
+            and all(isinstance(x, ast.Name) for x in l.target.elts[0].elts)
+            and any(isinstance(c, ast.Call) and call_name(c) in ("apply", "iterate") for b_ in l.body for c in ast.walk(b_))]
 
 
 def check_compute_ranges(ctx: Ctx, f: FunctionInfo, ranges_var: Optional[ast.Name] = None) -> None:
@@ -214,7 +216,13 @@ def check_parallel_iterate(ctx: Ctx, f: FunctionInfo, cls=None) -> None:
     k = "target_size"
     cls = cls or f.cls
     who = f"{cls.name}: " if cls is not None and cls is not f.cls else ""
-    calls = [c for c in walk_local(f.node) if isinstance(c, ast.Call) and call_name(c) == "compute_ranges"]
+    srcs = [f]
+    for x in walk_local(f.node):
+        if isinstance(x, ast.Call) and isinstance(x.func, ast.Attribute) and is_self_attr(x.func) and cls is not None:
+            g = ctx.prog.lookup_method(cls, x.func.attr)
+            if g is not None and g not in srcs and g.name != "compute_ranges":
+                srcs.append(g)
+    calls = [c for g in srcs for c in walk_local(g.node) if isinstance(c, ast.Call) and call_name(c) == "compute_ranges"]
     for c in calls:
         ok = len(c.args) >= 2 and isinstance(c.args[1], ast.Name) and c.args[1].id == k
         ctx.ob("C15.R2p", f, c, "compute_ranges is asked for target_size", ok,
@@ -224,12 +232,15 @@ def check_parallel_iterate(ctx: Ctx, f: FunctionInfo, cls=None) -> None:
         ctx.ob("C15.R2p", f, f.node, "one loop over (start, end) ranges", None, f"{len(loops)} candidate loops")
         return
     loop = loops[0]
-    rname = loop.iter.args[0]
-    rdefs = [a for a in f.node.body if isinstance(a, ast.Assign) and any(isinstance(t, ast.Name) and t.id == rname.id for t in a.targets)]
-    from_helper = len(rdefs) == 1 and isinstance(rdefs[0].value, ast.Call) and call_name(rdefs[0].value) == "compute_ranges"
+    from_helper = bool(calls)
     if not from_helper:
         # the step builds its slice boundaries inline: the same boundary-chain rule applies here
-        check_compute_ranges(ctx, f, ranges_var=rname)
+        rname = loop.iter.args[0] if isinstance(loop.iter, ast.Call) and loop.iter.args and isinstance(loop.iter.args[0], ast.Name) else \
+            (loop.iter if isinstance(loop.iter, ast.Name) else None)
+        if rname is None:
+            ctx.ob("C15.R2p", f, loop, "the slices come from compute_ranges or an inline boundary list", None, f"loop iterable '{norm(loop.iter)[:40]}' not followed")
+        else:
+            check_compute_ranges(ctx, f, ranges_var=rname)
     s_name, e_name = (x.id for x in loop.target.elts[0].elts)
     # every range is served: loop over zip(ranges, self.steps) with equal lengths asserted or by construction
     yc = YieldCounter(f, k, None)
@@ -278,8 +289,14 @@ def _anc(n):
 def rule_r3(ctx: Ctx) -> None:
     prog = ctx.prog
     n = 0
-    for f in prog.implementations(ALGORITHM, "search"):
-        for c in walk_local(f.node):
+    for f0 in prog.implementations(ALGORITHM, "search"):
+        srcs = [f0]
+        for x in walk_local(f0.node):
+            if isinstance(x, ast.Call) and isinstance(x.func, ast.Attribute) and is_self_attr(x.func) and f0.cls is not None:
+                g = prog.lookup_method(f0.cls, x.func.attr)
+                if g is not None and g not in srcs:
+                    srcs.append(g)
+        for f, c in [(g, c_) for g in srcs for c_ in walk_local(g.node)]:
             if isinstance(c, ast.Call) and call_name(c) in ("initialize", "apply") and isinstance(c.func, ast.Attribute):
                 idx = 3 if call_name(c) == "initialize" else 5
                 kw = next((k.value for k in c.keywords if k.arg == "target_size"), None)
